@@ -56,6 +56,8 @@ let model_ops l = match words l with
           | None -> outs := "BADOP" :: !outs
           | Some o ->
             let (st1, x) = Model.step chk c before o in
+            (* the process died (assert): the next start loads what is on disk *)
+            let st1 = if x = Model.OutDied then Model.reload { st1 with Model.w_dead = false } (List.map nat !all_ids) mids else st1 in
             st := st1;
             let r = (match x with Model.OutB true -> "1" | Model.OutB false -> "0" | Model.OutDied -> "DIED" | Model.OutLoad -> "L" | Model.OutDead -> "DEAD") in
             outs := (if st1.Model.w_dead && x = Model.OutLoad then "LOADFAIL" else r ^ summary st1) :: !outs;
@@ -122,7 +124,8 @@ let holds args case impl =
       let kind = List.hd (String.split_on_char ':' op) in
       let has_fault = (match String.split_on_char ':' op with
           | ["enc"; _; b] | ["chpass"; _; _; b] -> String.contains b '0' | _ -> false) in
-      if r = "LOADFAIL" then fail ((if !encrypted_ok then "fail unchecked-key-erase: " else "fail ") ^ "the wallet does not load after a restart")
+      if r = "DIED" && (field s 'e' <> "0" || field s 'k' <> "1") then fail "fail EncryptWallet died and the wallet on disk is not the intact unencrypted wallet"
+      else if r = "LOADFAIL" then fail ((if !encrypted_ok then "fail unchecked-key-erase: " else "fail ") ^ "the wallet does not load after a restart")
       else if s <> "" then begin
         let e = field s 'e' and l = field s 'l' and p = field s 'p' and f = field s 'f' and sg = field s 's' in
         let np = (match String.split_on_char '/' p with a :: _ -> a | [] -> "") in
